@@ -32,6 +32,13 @@ def fn(name, *args):
     return {"op": "fn", "name": name, "args": list(args)}
 
 
+def xfn(lib, name, *args):      # bundled extension function; rendered with the library tag as prefix
+    return {"op": "xfn", "lib": lib, "name": name, "args": list(args)}
+
+
+EXT_NS = {"set": "http://exslt.org/sets", "math": "http://exslt.org/math", "exsl": "http://exslt.org/common",
+          "str": "http://exslt.org/strings", "xalan": "http://xml.apache.org/xalan"}
+
 NONE = {"op": "none"}
 
 
@@ -130,7 +137,7 @@ def steps_text(steps, lead_ok=False):
     while i < len(steps):
         s = steps[i]
         if (s["axis"] == "descendant-or-self" and s["test"]["t"] == "node" and not s["preds"] and s.get("abbr", True)
-                and i + 1 < len(steps) and (i > 0 or lead_ok)):
+                and i + 1 < len(steps) and (i > 0 or lead_ok) and not pending_sep):
             pending_sep = "//"
             i += 1
             continue
@@ -161,6 +168,8 @@ def render(e, minprec=0):
         s = "$" + e["name"]
     elif op == "fn":
         s = e["name"] + "(" + ", ".join(render(a) for a in e["args"]) + ")"
+    elif op == "xfn":
+        s = e["lib"] + ":" + e["name"] + "(" + ", ".join(render(a) for a in e["args"]) + ")"
     elif op == "neg":
         s = "-" + render(e["a"], P_UNARY)
         if s.startswith("--"):
@@ -210,12 +219,13 @@ AXES = ["self", "child", "attribute", "parent", "ancestor", "ancestor-or-self", 
 
 class Gen:
     def __init__(self, rng, names=("a", "b", "c"), attrs=("x", "y", "id"), strs=("t", "u", "1", "2", " ", ""),
-                 vars_=None, pis=("t", "u"), nsmap=None, keys=()):
+                 vars_=None, pis=("t", "u"), nsmap=None, keys=(), ext=False):
         self.r = rng
         self.names, self.attrs, self.strs, self.pis = names, attrs, strs, pis
         self.vars = vars_ or {}      # name -> type
         self.nsmap = nsmap or {}     # prefix -> uri usable in name tests
         self.keys = list(keys)       # names of declared xsl:key (stylesheet context only)
+        self.ext = ext               # generate calls of the bundled EXSLT / xalan: extension functions
 
     def test(self, axis):
         r = self.r.random()
@@ -262,6 +272,15 @@ class Gen:
     def ns(self, d):
         r = self.r.random()
         nsvars = [k for k, t in self.vars.items() if t == "ns"]
+        if self.ext and d > 0 and r < 0.18:
+            c = self.r.random()
+            if c < 0.2:
+                return xfn(self.r.choice(["set", "xalan"]), "distinct", self.ns(d - 1))
+            if c < 0.7:
+                lib = self.r.choice(["set", "set", "xalan"])
+                nm = self.r.choice(["difference", "intersection", "leading", "trailing"] if lib == "set" else ["difference", "intersection"])
+                return xfn(lib, nm, self.ns(d - 1), self.ns(d - 1))
+            return xfn("math", self.r.choice(["highest", "lowest"]), self.ns(d - 1))
         if d <= 0 or r < 0.55:
             steps = []
             n = self.r.choice([1, 1, 2, 2, 3])
@@ -297,6 +316,10 @@ class Gen:
     def num_(self, d):
         r = self.r.random()
         numvars = [k for k, t in self.vars.items() if t == "num"]
+        if self.ext and d > 0 and r < 0.1:
+            if self.r.random() < 0.7:
+                return xfn("math", self.r.choice(["min", "max"]), self.ns(d - 1))
+            return xfn("math", "abs", self.num_(d - 1))
         if d <= 0 or r < 0.3:
             c = self.r.random()
             if c < 0.6:
@@ -325,6 +348,17 @@ class Gen:
     def str_(self, d):
         r = self.r.random()
         strvars = [k for k, t in self.vars.items() if t == "str"]
+        if self.ext and d > 0 and r < 0.12:
+            c = self.r.random()
+            if c < 0.3:
+                return xfn("exsl", "object-type", self.any(d - 1))
+            if c < 0.5:
+                return xfn("str", "concat", self.ns(d - 1))
+            if c < 0.75:
+                a = [self.num_(d - 1)] + ([lit(self.r.choice(["ab", "-", "", "xyz"]))] if self.r.random() < 0.6 else [])
+                return xfn("str", "padding", *a)
+            a = [self.str_(d - 1), lit(self.r.choice(["......", "abc", "", "0000"]))] + ([lit(self.r.choice(["left", "right"]))] if self.r.random() < 0.6 else [])
+            return xfn("str", "align", *a)
         if d <= 0 or r < 0.3:
             if strvars and self.r.random() < 0.2:
                 return var(self.r.choice(strvars))
@@ -353,6 +387,9 @@ class Gen:
 
     def bool_(self, d):
         r = self.r.random()
+        if self.ext and d > 0 and r < 0.08:
+            lib = self.r.choice(["set", "xalan"])
+            return xfn(lib, "has-same-node" if lib == "set" else "hasSameNodes", self.ns(d - 1), self.ns(d - 1))
         if d <= 0 or r < 0.15:
             return fn(self.r.choice(["true", "false"]))
         if r < 0.5:
